@@ -419,7 +419,17 @@ def eval_op(op, db, records, q):
         if op == "subset":
             r = call(lambda: sorted(key_of_row(x) for x in db.subset(**kw).get_records_matching()))
         else:
-            r = call(lambda: sorted(key_of_row(x, with_tag=tag) for x in getattr(db, op)(**kw)))
+            def read():
+                rows = list(getattr(db, op)(**kw))
+                keys = sorted(key_of_row(x, with_tag=tag) for x in rows)
+                # what a query hands out belongs to the caller: editing it in place must not reach any later answer
+                for x in rows:
+                    sp = x.get("spans") if hasattr(x, "get") else None
+                    if hasattr(sp, "flags") and sp.flags.writeable and sp.size:
+                        sp += 1000
+                return keys
+
+            r = call(read)
         want = sorted(key_of_model(x, with_tag=tag) for x in sel)
         if r[0] != "ok":
             return (f"raised {r[1]}", r[1], len(want))
